@@ -234,7 +234,7 @@ def e2e_identifiers(run, ctx, known) -> None:
 def oracle_unary(run, known, NS, enum_impl, s: str) -> None:
     cls = NS.sanitize_class_name(s)
     if not valid_ident(cls):
-        if cls in ("None", "True", "False"):
+        if cls in ("None", "True", "False") and known.listed("F28"):
             known.hit("F28", {"f": "sanitize_class_name", "in": s, "out": cls})
         else:
             run.violation("input", {"f": "sanitize_class_name", "in": s}, observed=cls,
